@@ -30,6 +30,21 @@ type roundCase struct {
 	Indices []int  `json:"indices,omitempty"`
 	Sep     string `json:"sep,omitempty"`
 	Shape   string `json:"shape,omitempty"`
+	// Chunk, for source "reader": the source delivers at most this many bytes per Read (0 = all)
+	Chunk int `json:"chunk,omitempty"`
+}
+
+// chunkReader delivers at most n bytes per call.
+type chunkReader struct {
+	r io.Reader
+	n int
+}
+
+func (c chunkReader) Read(p []byte) (int, error) {
+	if c.n > 0 && len(p) > c.n {
+		p = p[:c.n]
+	}
+	return c.r.Read(p)
 }
 
 func acceptBoth(sig string, m string, l ref.Lang, how string) error {
@@ -71,7 +86,7 @@ var c02Check = register("C02", "c02.roundtrip", func(c *roundCase) error {
 		return acceptBoth(sig, m, l, fmt.Sprintf("the output of NewMnemonicByEntropy(%x)", []byte(c.Entropy)))
 	case "reader":
 		sig := fmt.Sprintf("C02 roundtrip reader lang=%s size=%d leadzero=%d", l, len(c.Entropy), min(gen.LeadingZeroBytes(c.Entropy), 2))
-		prev := bip39.VerifSwapRandSource(bytes.NewReader(c.Entropy))
+		prev := bip39.VerifSwapRandSource(chunkReader{bytes.NewReader(c.Entropy), c.Chunk})
 		m, err, p := implNew(len(c.Entropy)/4*3, implLang[l])
 		bip39.VerifSwapRandSource(prev)
 		if p != nil || err != nil {
@@ -153,7 +168,7 @@ func TestC02_Table(t *testing.T) {
 					e[i] = 0
 				}
 				for _, src := range []string{"entropy", "reader"} {
-					c := &roundCase{Lang: l.Name(), Source: src, Entropy: e, Shape: "table-leadzero"}
+					c := &roundCase{Lang: l.Name(), Source: src, Entropy: e, Shape: "table-leadzero", Chunk: []int{0, 5, 1}[k%3]}
 					c02Record(c)
 					judge(t, "c02.roundtrip", c02Check, c)
 				}
@@ -223,6 +238,9 @@ func TestC02_Random(t *testing.T) {
 		default:
 			e := gen.Entropy().Draw(rt, "ent")
 			c = &roundCase{Lang: l.Name(), Source: src, Entropy: e.Bytes, Shape: e.Shape}
+			if src == "reader" {
+				c.Chunk = rapid.SampledFrom([]int{0, 0, 1, 7, 13, 16}).Draw(rt, "chunk")
+			}
 		}
 		c02Record(c)
 		if k++; k%499 == 1 {
